@@ -322,6 +322,14 @@ func (p *DirectProxy) Put(ctx context.Context, kind cache.EntryKind, hash string
 	st.logf("PUT %s (%d bytes, logical %d, on disk %d)", shortName(name), len(data), logicalSize, sizeOnDisk)
 }
 
+// Has reports whether the backend holds an object.
+func (st *Store) Has(name string) bool {
+	st.mu.Lock()
+	defer st.mu.Unlock()
+	_, ok := st.Objects[name]
+	return ok
+}
+
 // logicalSizeOf returns the logical size a well-behaved proxy announces.
 func (st *Store) logicalSizeOf(kind cache.EntryKind, obj []byte) int64 {
 	if kind == cache.CAS && st.V2 && len(obj) >= 16 {
